@@ -170,6 +170,21 @@ fn project_case(n: usize, p: &Project, wl: &[(String, Option<&str>)], sections: 
         let _ = run_cli(&sb.dir.join("jonly"), &["run", "-j", "p.json", "-o", "outj.wsca"]); a.procs += 1;
         match (&want, sb.read("jonly/outj.wsca")) { (Ok(w), Some(g)) if g == w.join("\n") => a.ok += 1, (Err(_), None) => a.ok += 1, (w, g) => a.viols.push(Viol { key: key("run-json-stray-word-file"), desc: format!("`asca run -j` in a directory that also holds one unrelated word file wrote {:?}, the library gives {:?} for the json's own words", g, w), case: case() }) }
     }
+    // `-o <existing directory>`: the manual says an out.wsca is created in that directory; it holds the library's answer, and nothing is written
+    // elsewhere. Run in a directory of its own (an existing out.wsca next to it would make the command prompt)
+    if let (Some(rt), Some(wt)) = (sb.read("in.rsca"), sb.read("in.wsca")) {
+        a.evals += 1;
+        sb.write("od/in.rsca", &rt); sb.write("od/in.wsca", &wt); sb.write("od/outdir/.keep", "");
+        let mut oargs = vec!["run", "-r", "in.rsca", "-w", "in.wsca", "-o", "outdir"];
+        if sections != 0 { if let Some(at) = sb.read("in.alias") { sb.write("od/in.alias", &at); } oargs.extend(["-l", "in.alias"]); }
+        let _ = run_cli(&sb.dir.join("od"), &oargs); a.procs += 1;
+        let stray: Vec<String> = sb.list("od").into_iter().filter(|f| f != "in.rsca" && f != "in.wsca" && f != "in.alias" && f != "outdir").collect();
+        match (&want, sb.read("od/outdir/out.wsca")) {
+            (Ok(w), Some(g)) if g == w.join("\n") && stray.is_empty() => a.ok += 1,
+            (Err(_), None) if stray.is_empty() => a.ok += 1,
+            (w, g) => a.viols.push(Viol { key: key("run-output-directory"), desc: format!("`asca run -o outdir` (an existing directory): outdir/out.wsca holds {:?}, the library gives {:?}; files that appeared elsewhere: {:?}", g, w, stray), case: case() }),
+        }
+    }
     a.evals += 1;
     sb.write("other.wsca", "ta.pa\n\nˈpat   # x");
     let _ = run_cli(&sb.dir, &["run", "-j", "p.json", "-w", "other.wsca", "-o", "outjw.wsca"]); a.procs += 1;
